@@ -9,6 +9,8 @@
 From Coq Require Import List ZArith Bool Relations.
 Import ListNotations.
 Require Import Gram.Model.Term Gram.Model.DeBruijn Gram.Model.Eval Gram.Spec.Typing Gram.Oracle.Infer Gram.Proofs.InferSound.
+Require Import Gram.Model.ModelB Gram.Proofs.CtxProofs Gram.Proofs.WeakenProofs Gram.Proofs.ConfluenceTyping Gram.Proofs.ConvConsistent Gram.Proofs.SafetyHF.
+Require Gram.Proofs.ConfluenceEval Gram.Proofs.TcSoundHF.
 
 Theorem C04_whnf_sound : forall fuel G t u, whnf fuel G t = Some u -> clos_refl_trans term (red G) t u.
 Proof. exact whnf_sound. Qed.
@@ -42,3 +44,46 @@ Theorem C04_examples :
 Proof. exact validator_examples. Qed.
 Check C04_examples : _ /\ _.
 Print Assumptions C04_examples.
+
+(* Preservation, canonical forms and type safety ARE theorems on hole-free group-free programs (Proofs/ConvConsistent.v,
+   resting on confluence of the repaired definitional equality): a step keeps the type; a value whose type is
+   convertible to int / bool / a function type is a literal / true or false / a function; and what the checker model
+   accepts at int yields an integer literal (or stops on a division by zero). *)
+Theorem C04_preservation : forall L t T t', Forall (fun A => hole_free A = true) L ->
+  hole_free t = true -> ConfluenceEval.no_let t = true -> hole_free T = true ->
+  has_type (binds L) t T -> step t = Some t' -> has_type (binds L) t' T.
+Proof. exact preservation_has_type. Qed.
+Check C04_preservation : forall L t T t', Forall (fun A => hole_free A = true) L ->
+  hole_free t = true -> ConfluenceEval.no_let t = true -> hole_free T = true ->
+  has_type (binds L) t T -> step t = Some t' -> has_type (binds L) t' T.
+Print Assumptions C04_preservation.
+
+Theorem C04_type_safety : forall f t T v, hole_free t = true -> ConfluenceEval.no_let t = true -> hole_free T = true ->
+  has_type [] t T -> evaluate f t = Some v ->
+  has_type [] v T /\ (is_value v = true \/ div_stuck v).
+Proof. exact type_safety_has_type. Qed.
+Check C04_type_safety : forall f t T v, hole_free t = true -> ConfluenceEval.no_let t = true -> hole_free T = true ->
+  has_type [] t T -> evaluate f t = Some v ->
+  has_type [] v T /\ (is_value v = true \/ div_stuck v).
+Print Assumptions C04_type_safety.
+
+Theorem C04_canonical_forms : forall G, wf_offsets G -> ctx_hf G -> forall v T, has_type G v T -> is_value v = true ->
+  (conv G T TInt -> exists z, v = TLit z) /\ (conv G T TBool -> v = TTrue \/ v = TFalse) /\
+  (forall im A B, conv G T (TPi im A B) -> exists d b, v = TLam im d b).
+Proof. intros G W F v T H V. split; [|split]; intros; [eapply canonical_int_conv | eapply canonical_bool_conv | eapply canonical_pi_conv]; eauto. Qed.
+Check C04_canonical_forms : forall G, wf_offsets G -> ctx_hf G -> forall v T, has_type G v T -> is_value v = true ->
+  (conv G T TInt -> exists z, v = TLit z) /\ (conv G T TBool -> v = TTrue \/ v = TFalse) /\
+  (forall im A B, conv G T (TPi im A B) -> exists d b, v = TLam im d b).
+Print Assumptions C04_canonical_forms.
+
+Theorem C04_accepted_int_programs_yield_literals : forall f t r g v,
+  hole_free t = true -> ConfluenceEval.no_let t = true ->
+  tcB f [] [] [] t = Some r -> b_errs r = [] -> TcSoundHF.zk (b_st r) (b_ty r) TInt ->
+  evaluate g t = Some v -> (exists z, v = TLit z) \/ div_stuck v.
+Proof. exact accepted_int_programs_yield_literals. Qed.
+Check C04_accepted_int_programs_yield_literals : forall f t r g v,
+  hole_free t = true -> ConfluenceEval.no_let t = true ->
+  tcB f [] [] [] t = Some r -> b_errs r = [] -> TcSoundHF.zk (b_st r) (b_ty r) TInt ->
+  evaluate g t = Some v -> (exists z, v = TLit z) \/ div_stuck v.
+Print Assumptions C04_accepted_int_programs_yield_literals.
+
